@@ -43,6 +43,12 @@ def rule_panic(F, R, rule="R14-panic", restrict=None, floor_roots=30):
         G = CallGraph(C)
         seen = G.reach(roots)
         total_reach += len(seen)
+        present = set()
+        for dp in seen:
+            m = C.mir_by_dp.get(dp)
+            if m:
+                for kind, where, callee in panic_sites(m):
+                    present.add((norm(m["path"]), kind))
         for dp in seen:
             m = C.mir_by_dp.get(dp)
             if not m:
@@ -54,6 +60,8 @@ def rule_panic(F, R, rule="R14-panic", restrict=None, floor_roots=30):
                 label = "%s site" % kind
                 if (fn, kind) in allowed:
                     R.ok(rule, fn, label, "reviewed: " + allowed[(fn, kind)], where)
+                elif moved_panic_reason(C, fn, kind, set(allowed), present):
+                    R.ok(rule, fn, label + " (moved)", moved_panic_reason(C, fn, kind, set(allowed), present), where)
                 else:
                     path = G.path_to(seen, dp)
                     R.violation(rule, fn, label,
